@@ -26,6 +26,11 @@ def obligations(tier):
                     obs.append(dict(name=f"{f}[prefix{pfx},k1={k1},n1={n1}]", func=f, pre=f"pfx == {pfx} and k1 == {k1} and n1 == {n1}", timeout=(3 * T if (k1 == 2 and n1 == 3) else T),
                                     bounds="parse -> serialize -> parse -> serialize on a parameter stream with 2 symbolic parameters; one symbolic component <=2 arbitrary chars, the others concrete"))
     obs.append(dict(name="corpus", func="corpus", timeout=T, bounds="the five corpus files, real tokenizer"))
+    if tier == "quick":
+        obs.append(dict(name="chars_cycle[|text|<=2]", func="chars_cycle", pre="len(text) <= 2", timeout=2 * T, bounds="character level: every text of <= 2 characters over the MSD alphabet, real lexer and serializer"))
+    else:
+        for st in (False, True):
+            obs.append(dict(name=f"chars_cycle[|text|<=3,strict={st}]", func="chars_cycle", pre=f"strict == {st}", timeout=2 * T, bounds="character level: every text of <= 3 characters over the MSD alphabet"))
     return obs
 
 
